@@ -2851,7 +2851,13 @@ def transform_compressible(items, constants, labels):
         # check if any set of criteria is all true for this item
         compressed = None
         for name, preds in criteria.items():
-            if all(pred(item, position, env) for pred in preds):
+            try:
+                eligible = all(pred(item, position, env) for pred in preds)
+            except ValueError:
+                # invalid operand (unknown register, bad shift amount): not
+                # compressible, resolve_instructions will report it with its line
+                eligible = False
+            if eligible:
                 compressed = name
                 break
 
